@@ -28,6 +28,7 @@ from __future__ import annotations
 import io
 import itertools
 import random
+from fractions import Fraction
 
 import pymbolic.primitives as p
 
@@ -947,6 +948,163 @@ class OptimizerStream(Stream):
 # }}}
 
 
+# {{{ stream: temporaries on one long-lived memoizing instance
+
+TEMP_KINDS = ["cse-mixin", "cse-mixin-cached", "identity", "combine", "collector", "dependency",
+              "dependency-cse", "evaluation", "evaluation-cse", "substitution", "stringify",
+              "constant-fold-cse", "commutative-constant-fold-cse", "differentiation-cse"]
+TEMP_WITH_ARGS = {"cse-mixin", "cse-mixin-cached", "identity", "combine", "collector"}
+TEMP_ENV = {"x": Fraction(3, 2), "y": Fraction(-2, 7), "z": Fraction(5, 3)}
+
+
+def canon(v):
+    """address-free canonical text of an answer (trees, sets of trees, numbers with their type)"""
+    from .. import temporaries as T
+    if isinstance(v, (set, frozenset)):
+        return "(set " + " ".join(sorted(canon(c) for c in v)) + ")"
+    if isinstance(v, Fraction):
+        return f"(frac {v.numerator} {v.denominator})"
+    if isinstance(v, (float, complex)):
+        return f'(repr {type(v).__name__} "{v!r}")'
+    t = T.tree(v)
+    if t.startswith("(unencodable"):
+        return f'(repr {type(v).__name__} "{v!r}")'
+    return t
+
+
+def temp_makers(pl):
+    """(the long-lived memoizing instance's factory, the factory of its counterpart applied afresh)"""
+    kind = pl["kind"]
+    if kind in ("cse-mixin", "cse-mixin-cached", "identity", "combine", "collector",
+                "substitution", "stringify"):
+        cls, cargs, ckw, plain_f, _once = make_pair({**pl, "pair": kind})
+        return (lambda: cls(*cargs, **ckw)), plain_f
+    if kind in ("dependency", "dependency-cse"):
+        from pymbolic.mapper.dependency import CachedDependencyMapper, DependencyMapper
+        kw = dep_kwargs(pl["flags"])
+        long_cls = CachedDependencyMapper if kind == "dependency" else DependencyMapper
+        return (lambda: long_cls(**kw)), (lambda: DependencyMapper(**kw))
+    if kind in ("evaluation", "evaluation-cse"):
+        from pymbolic.mapper.evaluator import CachedEvaluationMapper, EvaluationMapper
+        long_cls = CachedEvaluationMapper if kind == "evaluation" else EvaluationMapper
+        return (lambda: long_cls(dict(TEMP_ENV))), (lambda: EvaluationMapper(dict(TEMP_ENV)))
+    if kind in ("constant-fold-cse", "commutative-constant-fold-cse"):
+        import pymbolic.mapper.constant_folder as cf
+        cls = cf.ConstantFoldingMapper if kind == "constant-fold-cse" \
+            else cf.CommutativeConstantFoldingMapper
+        return cls, cls
+    if kind == "differentiation-cse":
+        from pymbolic.mapper.differentiator import DifferentiationMapper
+        return (lambda: DifferentiationMapper(p.Variable("x"))), \
+            (lambda: DifferentiationMapper(p.Variable("x")))
+    raise ValueError(kind)
+
+
+class TemporariesStream(Stream):
+    """ONE long-lived memoizing instance (the CSE-caching mix-in users: a user mapper with extra
+    arguments, DependencyMapper, EvaluationMapper, the constant folders, DifferentiationMapper;
+    CachedMapper subclasses: identity, combine, collector, dependency, evaluation, substitution,
+    stringify) fed a family of 20..60 TEMPORARIES: structurally identical expressions with
+    CommonSubexpression nodes and different contents, each built inside the call that passes it
+    and dead when the call returns (`harness/temporaries.py`; `gc.collect()` between some steps).
+    Every answer is compared at once with what the non-memoizing counterpart, applied afresh to a
+    rebuilt copy, returns.  Targets cache entries that outlive their keys: keys by `id(expr)` /
+    address, weak or stale entries (a new node allocated where a dead one was gets its answer)."""
+    name = "temporaries"
+    has_model = False
+
+    def cases(self, rng, tier):
+        from .. import temporaries as T
+        reps = 1 if tier == "quick" else 10
+        for r in range(reps):
+            for i, kind in enumerate(TEMP_KINDS):
+                yield self.one(rng, kind, i + r, T)
+
+    def one(self, rng, kind, i, T):
+        ops = ["sum", "sum", "prod", "prod", "quot", "pow", "cse", "cse"]
+        var_holes, carrier_kinds = True, None
+        if kind in ("evaluation", "evaluation-cse", "differentiation-cse"):
+            var_holes = False                   # every name is bound / the variable is x
+        else:
+            ops += ["call", "subscript"]
+        if kind in ("dependency", "dependency-cse", "collector"):
+            carrier_kinds = [4]                 # the answers are sets of names
+        g = T.TemplateGen(rng, ops, fixed_vars=["x", "x", "y", "z"], carrier_var="x",
+                          var_holes=var_holes, carrier_kinds=carrier_kinds)
+        n = rng.randint(20, 60)
+        exprs = T.family(rng, g, rng.randint(2, 3), n, names=["x", "y", "z", "u", "v", "w"],
+                         repeat=0.05 if i % 2 else 0.0)
+        k = rng.random()
+        gc_at = [] if k < 0.3 else list(range(n)) if k < 0.5 else \
+            sorted(rng.sample(range(n), max(1, n // 4)))
+        pl = {"kind": kind, "exprs": exprs, "gc": gc_at, "hold": bool(i % 2),
+              "share": bool(i % 5 == 3)}
+        if kind in TEMP_WITH_ARGS and i % 2:
+            pl["args"] = [list(rng.choice(ARG_POOL)) for _ in range(n)]
+        else:
+            pl["args"] = [[] for _ in range(n)]
+        if kind in ("dependency", "dependency-cse"):
+            pl["flags"] = {**rng.choice(FLAGSETS), "cses": False}
+        if kind == "substitution":
+            pl["subst"] = {"x": esx(p.Sum((p.Variable("y"), 1))), "u": esx(p.Variable("x"))}
+        return pl
+
+    def run_impl(self, pl):
+        return "(oracle-only)"
+
+    def oracle(self, pl):
+        from .. import temporaries as T
+        kind, share, hold = pl["kind"], pl.get("share", False), pl.get("hold", False)
+        make_long, make_fresh = temp_makers(pl)
+        args = [tuple(a) for a in pl["args"]]
+        acc = self.last = {"members": 0, "answers": 0, "errors": 0}
+
+        def judge(i, sx_text, out):
+            acc["members"] += 1
+            got = (out[0], canon(out[1])) if hold and out[0] == "ok" else out
+            ref = T.feed(make_fresh(), sx_text, *args[i], share=share, post=canon)
+            acc["answers" if ref[0] == "ok" else "errors"] += 1
+            if got == ref:
+                return None
+            what = (f"member #{i} of {len(pl['exprs'])} on one {kind} instance (the earlier "
+                    f"members were dropped before it was built) {sx_text[:160]} args={args[i]}")
+            if got[0] != ref[0] or got[0] == "err":
+                return Failure(f"temporary-{kind}-outcome-differs",
+                               f"{what}: long-lived instance {got!r}, counterpart applied afresh "
+                               f"{ref!r}", pl)
+            site, part, part_ref = T.first_difference(got[1], ref[1])
+            return Failure(f"temporary-{kind}-differs",
+                           f"{what}: the answers differ {site}: long-lived instance … {part[:300]} "
+                           f"…, counterpart applied afresh … {part_ref[:300]} …", pl)
+
+        import warnings
+        with warnings.catch_warnings():
+            warnings.simplefilter("ignore")
+            return T.run_family(make_long(), pl["exprs"], judge, collect_at=pl["gc"], hold=hold,
+                                share=share, post=None if hold else canon,
+                                args_of=lambda i: (args[i], {}))
+
+    def shrink(self, pl):
+        # the family stays whole (which member lands on a recycled address is up to the
+        # allocator; a cut-down family would not fail again in a new process); simplify the knobs
+        if pl.get("share"):
+            yield {**pl, "share": False}
+        if pl["gc"]:
+            yield {**pl, "gc": []}
+        if any(pl["args"]):
+            yield {**pl, "args": [[] for _ in pl["args"]]}
+
+    def nontrivial_key(self, pl, model, impl):
+        return pl["kind"] + dumps(pl["exprs"][:2])
+
+    def stats(self, pl, mo, io, acc):
+        acc[pl["kind"]] = acc.get(pl["kind"], 0) + 1
+        for k, n in getattr(self, "last", {}).items():
+            acc[k] = acc.get(k, 0) + int(n)
+
+# }}}
+
+
 # {{{ probes for the known findings
 
 def probe():
@@ -1040,7 +1198,7 @@ PROP = Prop(
     lean_targets=["PV.Properties.C05"],
     extractors=[extract],
     streams=[KeyEqStream(), MemoTraceStream(), OptKeysStream(), PairStream(), ScalarStream(),
-             OptimizerStream()],
+             OptimizerStream(), TemporariesStream()],
     probes=[probe],
     trusted_base=[
         "Lean 4.33 kernel; axioms propext, Classical.choice, Quot.sound only",
